@@ -18,16 +18,20 @@ const Instance = primitives.InstanceId(7001)
 
 // Config of one simulated world. JSON-able: it is part of every replay file.
 type Config struct {
-	N         int      `json:"n"`
-	Weights   []uint64 `json:"weights"`             // by identity index 0..N-1
-	Order     []int    `json:"order"`               // committee order at height 1 (a permutation of 0..N-1)
-	Rot       int      `json:"rot"`                 // the order is rotated by Rot positions per height
-	Byz       []int    `json:"byz"`                 // identity indices whose keys the adversary holds
-	Crashed   []int    `json:"crashed"`             // correct but silent members
-	Outsiders int      `json:"outsiders"`           // identities with keys that are in no committee
-	MaxHeight uint64   `json:"max_height"`          // nodes stop being scheduled once past this height
-	Focus     string   `json:"focus"`               // property whose monitors are armed
-	RejectAt  []int    `json:"reject_at,omitempty"` // nodes whose validator additionally rejects blocks with an id ending in "!r"
+	N           int      `json:"n"`
+	Weights     []uint64 `json:"weights"`                 // by identity index 0..N-1
+	Order       []int    `json:"order"`                   // committee order at height 1 (a permutation of 0..N-1)
+	Rot         int      `json:"rot"`                     // the order is rotated by Rot positions per height
+	WRot        int      `json:"wrot,omitempty"`          // the weight vector is rotated by WRot positions per height (weights differ between heights)
+	Byz         []int    `json:"byz"`                     // identity indices whose keys the adversary holds
+	Crashed     []int    `json:"crashed"`                 // correct but silent members
+	Outsiders   int      `json:"outsiders"`               // identities with keys that are in no committee
+	MaxHeight   uint64   `json:"max_height"`              // nodes stop being scheduled once past this height
+	Focus       string   `json:"focus"`                   // property whose monitors are armed
+	FailCommit  []int    `json:"fail_commit,omitempty"`   // nodes whose commit callback returns an error ...
+	FailCommitH uint64   `json:"fail_commit_h,omitempty"` // ... at this height (the consumer failed to persist the block)
+	AcceptAllAt []int    `json:"accept_all_at,omitempty"` // nodes whose consumer validator approves everything, even a missing block (C12)
+	RejectAt    []int    `json:"reject_at,omitempty"`     // nodes whose validator additionally rejects blocks with an id ending in "!r"
 }
 
 type Commit struct {
@@ -170,7 +174,7 @@ func (w *World) Committee(h primitives.BlockHeight) []interfaces.CommitteeMember
 	}
 	for i := 0; i < n; i++ {
 		idx := w.Cfg.Order[(i+shift)%n]
-		out[i] = interfaces.CommitteeMember{Id: w.IDs[idx], Weight: primitives.MemberWeight(w.Cfg.Weights[idx])}
+		out[i] = interfaces.CommitteeMember{Id: w.IDs[idx], Weight: primitives.MemberWeight(w.Cfg.WeightAt(idx, uint64(h)))}
 	}
 	return out
 }
@@ -193,17 +197,31 @@ func (w *World) LeaderIdx(h, v uint64) int {
 	return w.IdxOf(ref.Leader(primitives.View(v), w.Committee(primitives.BlockHeight(h))))
 }
 
-// Validate checks the generator invariant of the properties' precondition: Byzantine weight <= f.
+// WeightAt: weight of identity idx in the committee of height h.
+func (c *Config) WeightAt(idx int, h uint64) uint64 {
+	if c.WRot == 0 || h == 0 {
+		return c.Weights[idx]
+	}
+	n := len(c.Weights)
+	return c.Weights[(idx+int((h-1)*uint64(c.WRot)%uint64(n)))%n]
+}
+
+// ByzWeightOK checks the generator invariant of the properties' precondition: Byzantine weight <= f, at every height that can be reached.
 func (c *Config) ByzWeightOK() bool {
-	com := make([]interfaces.CommitteeMember, c.N)
-	var ids []primitives.MemberId
-	for i := 0; i < c.N; i++ {
-		com[i] = interfaces.CommitteeMember{Id: MemberName(i), Weight: primitives.MemberWeight(c.Weights[i])}
-		if isIn(c.Byz, i) {
-			ids = append(ids, MemberName(i))
+	for h := uint64(1); h <= c.MaxHeight+1; h++ {
+		com := make([]interfaces.CommitteeMember, c.N)
+		var ids []primitives.MemberId
+		for i := 0; i < c.N; i++ {
+			com[i] = interfaces.CommitteeMember{Id: MemberName(i), Weight: primitives.MemberWeight(c.WeightAt(i, h))}
+			if isIn(c.Byz, i) {
+				ids = append(ids, MemberName(i))
+			}
+		}
+		if ref.Weight(ids, com).Cmp(ref.F(com)) > 0 {
+			return false
 		}
 	}
-	return ref.Weight(ids, com).Cmp(ref.F(com)) <= 0
+	return true
 }
 
 func NewWorld(cfg Config) *World {
@@ -238,6 +256,7 @@ func (w *World) newNode(i int) *Node {
 	if isIn(w.Cfg.RejectAt, i) {
 		n.BU.Reject = func(b *fakes.Block) bool { return b != nil && len(b.ID) > 1 && b.ID[len(b.ID)-2:] == "!r" }
 	}
+	n.BU.AcceptAll = isIn(w.Cfg.AcceptAllAt, i)
 	n.Mem = &fakes.Membership{Me: n.ID, Committee: w.Committee}
 	n.Sto = fakes.NewRecStorage()
 	n.Sch = fakes.NewSched()
@@ -324,6 +343,9 @@ func (w *World) onCommit(n *Node, ctx context.Context, block interfaces.Block, p
 		w.Obs.HeightsDone = c.H
 	}
 	w.Mon.onCommit(n, c, ctx)
+	if c.H == w.Cfg.FailCommitH && isIn(w.Cfg.FailCommit, n.Idx) {
+		return fmt.Errorf("consumer of node %d failed to persist block %d", n.Idx, c.H)
+	}
 	return nil
 }
 
